@@ -40,11 +40,11 @@ SHARD_TIMEOUT = {'quick': 500, 'thorough': 3400}
 OPENS = ['ok', 'refuse', 'status401', 'status500', 'garbage', 'empty',
          'nonopen']
 TRANSPORTS = ['polling', 'websocket', 'upgrade']
-PROBES = ['ok', 'wrong', 'silent', 'close', 'refuse']
+PROBES = ['ok', 'wrong', 'silent', 'close', 'refuse', 'upgrade-write-fails']
 ENDERS = ['server-close', 'silence', 'drop', 'post-fail', 'client-main',
           'client-in-message', 'client-in-connect', 'client-in-disconnect',
           'client-abort', 'write-dead-then-client', 'client-during-post',
-          'garbage', 'post-fail-polls-ok']
+          'garbage', 'post-fail-polls-ok', 'write-dead-burst-then-drop']
 PI, PT = 2, 1
 
 
@@ -231,6 +231,24 @@ def one_cycle(rec, w, V, case, cyc, openb, transport, probe, ender, rng):
                   'answered and the client is still %r with no disconnect '
                   'event' % c.c.state)
                 return False
+        else:
+            srv.ws.server_close()
+        want_reason = 'transport error'
+    elif ender == 'write-dead-burst-then-drop':
+        # the write loop dies on a failed send while the read loop keeps
+        # going; the application (state still 'connected') goes on sending a
+        # burst; then the read side fails too
+        if want_tr == 'polling':
+            srv.script['post'] = 'refuse'
+        else:
+            srv.ws.send_fails = True
+        c.call('send', 'doomed')
+        w.quiesce()
+        c.call_seq('send', ['burst-%d' % k for k in range(24)])
+        w.quiesce()
+        srv.dropped = True
+        if want_tr == 'polling':
+            srv.pollq.put(None)
         else:
             srv.ws.server_close()
         want_reason = 'transport error'
